@@ -13,5 +13,6 @@ INVARIANT SegChain
 INVARIANT NowIsLast
 INVARIANT StepIntervals
 INVARIANT ProtocolIsComposition
+INVARIANT FailedFrozen
 INVARIANT Emit
 CHECK_DEADLOCK FALSE
